@@ -12,12 +12,23 @@ records per tree) of every patch are compared inside Coq with the per-patch stat
 Model/TreeCache.v (c07_ccase).  Every history ends with a
 measurement whose CorrFunc list is compared (`==` and bitwise on every counts / sum_weights
 array) with the same measurement on freshly created caches of the same data.
+
+Processes: every step of a history has an executor -- the measuring process itself (max_workers=1),
+a REAL multiprocessing pool (max_workers=2/3 with YAW_NUM_THREADS raised: forked workers build the
+trees and count the pairs) or a forked CHILD process that runs the whole call while the measuring
+process stays alive with its Catalog objects (kept alive or reopened later by `reopen` steps).
+Histories mix these freely (sequential / pooled / child steps in any order, final measurement by
+anyone).  `peek` steps read BinnedTrees(patch).trees of every patch of a catalog IN the measuring
+process; what they return is compared inside Coq (c07_pcase, bit 3) with the process model of
+Model/TreeCache.v under the code's policy (nothing is kept in memory: a peek returns the trees
+file).  The files after every step are compared as before, whoever executed the step.
 """
 import os
 import pickle
 import random
 import shutil
 import traceback
+import multiprocessing
 
 import numpy as np
 
@@ -29,6 +40,10 @@ TRUSTED = [
     "harness-side observation of a patch directory: BinnedTrees(patch).binning (the implementation's own decoder of the "
     "`binning` file) and pickle.load of trees.pkl (tuple / single AngularTree, num_records); scipy KDTree pair counting is "
     "exercised, not modelled",
+    "processes: pools are the real multiprocessing pools of the implementation (fork start method), child steps run in a "
+    "real forked child of the measuring process (harness: multiprocessing fork context + pipe); the Coq process model "
+    "abstracts a pool as 'building workers and counting workers are forked from the measuring process' and a child as one "
+    "forked process",
 ]
 ASSUMPTIONS = [
     "a cache directory is used by one catalog in one role per measurement (the same cache passed twice to one "
@@ -36,7 +51,8 @@ ASSUMPTIONS = [
     "the pair counts of a measurement are a function of the patch data, the configuration and the content of trees.pkl "
     "(compared end-to-end against fresh caches on every history, not proved)",
 ]
-RULE = ("cases = (history of <= 8 operations on 3 catalogs, data seed); distinct by (operations, data seed); non-trivial when, "
+RULE = ("cases = (history of <= 10 steps on 3 catalogs, every step with its executor: measuring process / real pool of 2-3 "
+        "workers / forked child process, data seed); distinct by (steps incl. executors, data seed); non-trivial when, "
         "before the final measurement, a participating catalog was asked for a binning different from the one the final "
         "measurement asks for (the reuse decision sees a stored binning that must be rejected or was replaced)")
 
@@ -129,6 +145,8 @@ def requests(op, npatch=3):
         return {op["cat"]: ("(All (%s))" % coq_build(b, False), None)}
     if kind == "reopen":
         return {op["cat"]: ("(All Reopen)", None)}
+    if kind == "peek":
+        return {op["cat"]: (None, None)}      # CPeek in the labelled history
     c = op["cfg"]
     out = {}
     for name, role in participants(op).items():
@@ -156,22 +174,116 @@ def coq_measure(c, role):
         "Reference" if role == "ref" else "Unknown")
 
 
+# ---------------------------------------------------------------- executors
+MAX_POOL = 3   # YAW_NUM_THREADS during the check; every yaw call gets an explicit max_workers <= MAX_POOL
+
+
+def workers_of(op):
+    """requested worker count of a step (1 = sequential in the executing process)"""
+    return int(op.get("workers", 1))
+
+
+def effective_workers(op):
+    """what yaw makes of the request on this machine (min(request, YAW_NUM_THREADS, cores per socket))"""
+    from yaw.utils import parallel
+    return int(parallel.get_size(workers_of(op)))
+
+
+def executor(op):
+    """'Self' | 'Pool' | 'Child' : the label of the step in the Coq process model"""
+    if op["op"] in ("reopen", "peek"):
+        return "Self"
+    if op["op"] != "build_patch" and effective_workers(op) >= 2:
+        return "Pool"       # (a pool inside a child process is a pool whose parent never used the trees itself)
+    return "Child" if op.get("proc") == "child" else "Self"
+
+
+def elsewhere(op):
+    """the step is not executed (entirely) by the measuring process"""
+    return op.get("proc") == "child" or (op["op"] in ("build", "build_invalid", "auto", "cross") and workers_of(op) >= 2)
+
+
+def strip_exec(op):
+    return {k: v for k, v in op.items() if k not in ("proc", "workers")}
+
+
+class ChildFailure(Exception):
+    pass
+
+
+def in_child(fn):
+    """run fn() in a forked child of this process; this process stays alive, keeps all its objects and only
+    receives fn's (pickled) result.  An exception in the child is re-raised here under its own type name."""
+    mp = multiprocessing.get_context("fork")
+    rx, tx = mp.Pipe(duplex=False)
+
+    def target():
+        try:
+            out = ("ok", fn())
+        except BaseException as e:   # noqa: BLE001
+            out = ("exc", type(e).__name__, str(e), traceback.format_exc()[-1500:])
+        try:
+            tx.send(out)
+        finally:
+            tx.close()
+
+    proc = mp.Process(target=target)
+    proc.start()
+    tx.close()
+    try:
+        out = rx.recv()
+    except EOFError:
+        out = ("exc", "ChildDied", "child process ended without a result", "")
+    finally:
+        rx.close()
+    proc.join()
+    if out[0] == "exc":
+        raise type(out[1], (ChildFailure,), {})("in child process: %s\n%s" % (out[2], out[3]))
+    return out[1]
+
+
 def measure(cats, op):
     cfg = make_config(op["cfg"])
+    w = workers_of(op)
     if op["op"] == "auto":
-        return impl.yaw.autocorrelate(cfg, cats[op["data"]], cats[op["rand"]], max_workers=1)
+        return impl.yaw.autocorrelate(cfg, cats[op["data"]], cats[op["rand"]], max_workers=w)
     kw = {op["rand_role"]: cats[op["rand"]]}
-    return impl.yaw.crosscorrelate(cfg, cats[op["ref"]], cats[op["unk"]], max_workers=1, **kw)
+    return impl.yaw.crosscorrelate(cfg, cats[op["ref"]], cats[op["unk"]], max_workers=w, **kw)
+
+
+def peek(cat):
+    """BinnedTrees(patch).trees of every patch, read in THIS process: pid -> 'nofile' | (is tuple, records per tree)"""
+    from yaw.catalog.trees import BinnedTrees
+    out = {}
+    for pid, patch in cat.items():
+        try:
+            trees = BinnedTrees(patch).trees
+        except FileNotFoundError:
+            out[int(pid)] = "nofile"
+            continue
+        if isinstance(trees, tuple):
+            out[int(pid)] = (True, [int(t.num_records) for t in trees])
+        else:
+            out[int(pid)] = (False, [int(trees.num_records)])
+    return out
 
 
 def apply_op(cats, paths, op):
-    """run one operation on the real code; returns the result of a measurement (else None)"""
+    """run one step on the real code with its executor; returns the result of a measurement / peek (else None)"""
+    if op.get("proc") == "child" and op["op"] not in ("reopen", "peek"):
+        here = dict(op, proc="here")
+        return in_child(lambda: apply_op_here(cats, paths, here))
+    return apply_op_here(cats, paths, op)
+
+
+def apply_op_here(cats, paths, op):
     kind = op["op"]
     if kind == "build":
         if op["edges"] is None:
-            cats[op["cat"]].build_trees(None, closed=op["closed"], force=op["force"], max_workers=1)
+            cats[op["cat"]].build_trees(None, closed=op["closed"], force=op["force"], max_workers=workers_of(op))
         else:
-            cats[op["cat"]].build_trees(EDGE_SETS[op["edges"]], closed=op["closed"], force=op["force"], max_workers=1)
+            cats[op["cat"]].build_trees(EDGE_SETS[op["edges"]], closed=op["closed"], force=op["force"],
+                                        max_workers=workers_of(op))
     elif kind == "build_patch":
         from yaw.binning import Binning
         from yaw.catalog.trees import BinnedTrees
@@ -181,11 +293,13 @@ def apply_op(cats, paths, op):
         BinnedTrees.build(cat[pids[patch_index(op, len(pids))]], binning, force=op["force"])
     elif kind == "build_invalid":
         try:
-            cats[op["cat"]].build_trees(INVALID_EDGES[op["edges"]], closed=op["closed"], max_workers=1)
+            cats[op["cat"]].build_trees(INVALID_EDGES[op["edges"]], closed=op["closed"], max_workers=workers_of(op))
         except ValueError:
             pass   # expected; whether the cache was left alone is seen by the state comparison
     elif kind == "reopen":
         cats[op["cat"]] = impl.Catalog(paths[op["cat"]], max_workers=1)
+    elif kind == "peek":
+        return peek(cats[op["cat"]])
     else:
         return measure(cats, op)
     return None
@@ -275,20 +389,25 @@ def same_result(a, b):
 # ---------------------------------------------------------------- one history
 def run_history(ctx, tag, data, ops, record=True):
     """creates caches for `data`, applies ops (the last one is a measurement); returns
-    (per catalog: list of coq ops, list of per-patch observations, final request), result, cats"""
+    (per catalog: list of labelled coq ops, per-patch file observations, peek rows, final request), result, cats"""
     paths = {n: impl.fresh_dir(ctx, "%s_%s" % (tag, n)) for n in CATS}
     cats = {n: create(paths[n], data[n]) for n in CATS}
-    per = {n: dict(ops=[], obs=[], final=None) for n in CATS}
+    per = {n: dict(ops=[], obs=[], loaded=[], final=None) for n in CATS}
     result = None
     for i, op in enumerate(ops):
         result = apply_op(cats, paths, op)
         if record:
             for name, (cop, req) in requests(op, len(cats[CATS[0]])).items():
-                per[name]["ops"].append(cop)
+                per[name]["ops"].append("CPeek" if cop is None else "(CDo %s %s)" % (executor(op), cop))
                 per[name]["obs"].append(observe(cats[name]))
+                per[name]["loaded"].append(result if op["op"] == "peek" else None)
                 if i == len(ops) - 1:
                     per[name]["final"] = req
     return per, result, cats, paths
+
+
+def coq_lobs(o):
+    return "None" if o == "nofile" else "(Some (%s, %s))" % (fq.b(o[0]), fq.nlist(o[1]))
 
 
 def fresh_result(ctx, tag, data, final_op, flipped=False):
@@ -361,6 +480,53 @@ def search_prefixes(ctx, idx, spec):
     return False
 
 
+def mixes_processes(ops):
+    """some step touches the trees in the measuring process itself and some step is executed elsewhere"""
+    tree_ops = [op for op in ops if op["op"] not in ("reopen", "build_invalid")]
+    return any(elsewhere(op) for op in tree_ops) and any(not elsewhere(op) for op in tree_ops)
+
+
+def differs_from_fresh(ctx, tag, data, ops):
+    """re-run a history on new directories; (differs, why) against fresh caches; an exception counts as differing"""
+    try:
+        _, res, _, paths = run_history(ctx, tag, data, ops, record=False)
+        fres, _ = fresh_result(ctx, tag + "f", data, ops[-1])
+        for p in paths.values():
+            shutil.rmtree(p, ignore_errors=True)
+    except Exception as e:   # noqa: BLE001
+        return True, "raises %s" % type(e).__name__
+    ok, why = same_result(res, fres)
+    return (not ok), why
+
+
+def report_difference(ctx, idx, spec, data, why):
+    """the final measurement of spec differs from fresh caches: shrink the history (drop steps while it still differs,
+    bounded) and name the structure: does it need steps executed outside the measuring process?"""
+    ops = list(spec["ops"])
+    budget = 14
+    i = 0
+    while i < len(ops) - 1 and budget > 0:
+        cand = ops[:i] + ops[i + 1:]
+        budget -= 1
+        if differs_from_fresh(ctx, "m%d_%d" % (idx, budget), data, cand)[0]:
+            ops = cand
+        else:
+            i += 1
+    replay = dict(dseed=spec["dseed"], ops=spec["ops"], shrunk_ops=ops)
+    if any(elsewhere(op) for op in ops):
+        seq = [strip_exec(op) for op in ops]
+        if not differs_from_fresh(ctx, "q%d" % idx, data, seq)[0]:
+            ctx.fail("c07-measurement-differs-after-steps-in-other-processes",
+                     "measurement after a cache history differs from the same measurement on fresh caches (%s); the same "
+                     "steps all executed by the measuring process itself (max_workers=1, no child process) give the fresh "
+                     "result: something a process holds in memory survives a rebuild done by another process; shrunk "
+                     "history: %s" % (why, [(op["op"], executor(op)) for op in ops]), replay, case=idx)
+            return
+    ctx.fail("c07-measurement-differs-from-fresh-cache",
+             "measurement after a cache history differs from the same measurement on fresh caches (%s); shrunk history has "
+             "%d steps" % (why, len(ops)), replay, case=idx)
+
+
 def one_history(ctx, idx, spec, terms, owners):
     data = gen_data(spec["dseed"])
     ops = spec["ops"]
@@ -374,9 +540,7 @@ def one_history(ctx, idx, spec, terms, owners):
     fres, fflip = fresh_result(ctx, "f%d" % idx, data, ops[-1], flipped=True)
     ok, why = same_result(res, fres)
     if not ok:
-        ctx.fail("c07-measurement-differs-from-fresh-cache",
-                 "measurement after a cache history differs from the same measurement on fresh caches (%s)" % why,
-                 dict(spec), case=idx)
+        report_difference(ctx, idx, spec, data, why)
     if not same_result(fres, fflip)[0]:
         ctx.bump("closed_side_changes_final_result")
     # coq terms: one per catalog (state vector over its patches; patch ids are 0..n-1 = positions)
@@ -388,12 +552,23 @@ def one_history(ctx, idx, spec, terms, owners):
         assert pids == list(range(len(pids))), pids
         final = per[n]["final"]
         fstr = "None" if final is None else "(Some %s)" % coq_binning(final[1])
-        terms.append("c07_ccase %s %s %s %s" % (
+        terms.append("c07_pcase %s %s %s %s %s" % (
             fq.lst(per[n]["ops"]), fq.lst([fq.qlist(redshifts[p]) for p in pids]),
-            fq.lst([fq.lst([coq_obs(o[p]) for p in pids]) for o in per[n]["obs"]]), fstr))
+            fq.lst([fq.lst([coq_obs(o[p]) for p in pids]) for o in per[n]["obs"]]),
+            fq.lst([fq.lst([] if l is None else [coq_lobs(l[p]) for p in pids]) for l in per[n]["loaded"]]), fstr))
         owners.append((idx, n))
     nt = nontrivial(ops)
-    ctx.count(key=(spec["dseed"], repr(ops)), nontrivial=nt, kind="final:%s/len%d" % (ops[-1]["op"], len(ops)))
+    mixed = mixes_processes(ops)
+    ctx.count(key=(spec["dseed"], repr(ops)), nontrivial=nt,
+              kind="final:%s/len%d%s" % (ops[-1]["op"], len(ops), "/mixed-processes" if mixed else ""))
+    if mixed:
+        ctx.bump("histories_mixing_processes")
+        if nt:
+            ctx.bump("histories_mixing_processes_nontrivial")
+    for op in ops:
+        ctx.bump("executor:%s%s" % (executor(op), ":final" if op is ops[-1] else ""))
+        if workers_of(op) >= 2 and effective_workers(op) < 2:
+            ctx.bump("pool_requested_but_only_one_worker_available")
     for op in ops[:-1]:
         ctx.bump("op:" + op["op"] + (":force" if op.get("force") else "") + (":unbinned" if op["op"] in ("build", "build_patch") and op["edges"] is None else ""))
     if any(op["op"] == "build_patch" for op in ops):
@@ -454,6 +629,77 @@ def rand_history(rng):
             ops.append(dict(op="reopen", cat=rng.choice(CATS)))
         else:
             ops.append(rand_measure(rng, final["cfg"]))
+    if rng.random() < 0.35:
+        return ops + [final]           # every step by the measuring process itself
+    return mix_processes(rng, ops, final)
+
+
+def rand_executor(rng, op, p_here=0.4):
+    """here (sequential) / real pool of 2-3 workers / forked child (sequential or with its own pool)"""
+    if op["op"] in ("reopen", "peek"):
+        return op
+    r = rng.random()
+    if r < p_here:
+        return op
+    if op["op"] == "build_patch":      # a direct per-patch call has no worker count
+        return dict(op, proc="child")
+    if r < p_here + 0.6 * (1 - p_here):
+        return dict(op, workers=rng.choice([2, 2, 3]))
+    if r < p_here + 0.9 * (1 - p_here):
+        return dict(op, proc="child")
+    return dict(op, proc="child", workers=2)
+
+
+def neighbour_cfg(rng, cfg):
+    """another binning, mostly with the same number of bins (other closed side / other edges / edges one ulp apart)"""
+    k = rng.random()
+    flip = "left" if cfg["closed"] == "right" else "right"
+    if k < 0.35 or (cfg["edges"] == 1 and k < 0.85):
+        return dict(cfg, closed=flip)
+    if k < 0.85:
+        return dict(cfg, edges={0: rng.choice([2, 3]), 2: 0, 3: rng.choice([0, 2])}[cfg["edges"]])
+    return dict(cfg, edges=rng.choice([e for e in range(len(EDGE_SETS)) if e != cfg["edges"]]), closed=rng.choice(["left", "right"]))
+
+
+def mix_processes(rng, ops, final):
+    """give every step an executor, add peeks, and (half of the time) end the history with the shape that separates
+    processes: the catalogs of the final measurement are used for a NEIGHBOURING binning by the measuring process itself,
+    then for the final binning by someone else (pool / child: measurement or builds), then the final measurement"""
+    ops = [rand_executor(rng, op) for op in ops]
+    final_cats = list(participants(final))
+    if rng.random() < 0.55:
+        ops = ops[:rng.randrange(0, 5)] if ops else ops
+        tail = [dict(final, cfg=dict(neighbour_cfg(rng, final["cfg"]), scales=rng.randrange(3)))]      # here, sequential
+        if rng.random() < 0.4:
+            tail.append(dict(op="peek", cat=rng.choice(final_cats)))
+        r = rng.random()
+        if r < 0.55:      # the final request as a measurement executed elsewhere
+            tail.append(rand_executor(rng, dict(final, cfg=dict(final["cfg"], scales=rng.randrange(3))), p_here=0.0))
+        elif r < 0.85:    # ... as catalog-wide builds executed elsewhere (each catalog in its role)
+            for name, (_, req) in requests(final).items():
+                b = req[1]
+                tail.append(rand_executor(rng, dict(op="build", cat=name, edges=None if b is None else final["cfg"]["edges"],
+                                                    closed=final["cfg"]["closed"], force=rng.random() < 0.3), p_here=0.0))
+        else:             # ... as single-patch builds in a child process
+            for name, (_, req) in requests(final).items():
+                b = req[1]
+                tail.append(dict(op="build_patch", cat=name, patch=rng.choice([0, -1, 1]), proc="child",
+                                 edges=None if b is None else final["cfg"]["edges"], closed=final["cfg"]["closed"],
+                                 force=rng.random() < 0.3))
+        if rng.random() < 0.3:
+            tail.append(dict(op="reopen", cat=rng.choice(final_cats)))       # Catalog objects reopened instead of kept alive
+        if rng.random() < 0.35:
+            tail.append(dict(op="peek", cat=rng.choice(final_cats)))
+        ops = ops + tail
+        final = rand_executor(rng, final, p_here=0.6)
+    else:
+        out = []
+        for op in ops:
+            out.append(op)
+            if rng.random() < 0.2:
+                out.append(dict(op="peek", cat=rng.choice(CATS)))
+        ops = out[:9]
+        final = rand_executor(rng, final, p_here=0.5)
     return ops + [final]
 
 
@@ -463,7 +709,44 @@ def corpus():
     cross = lambda cfg, ref, unk, rr="ref_rand": dict(op="cross", cfg=cfg, ref=ref, unk=unk, rand="R", rand_role=rr)  # noqa: E731
     build = lambda cat, e, cl="right", force=False: dict(op="build", cat=cat, edges=e, closed=cl, force=force)  # noqa: E731
     bpatch = lambda cat, p, e, cl="right", force=False: dict(op="build_patch", cat=cat, patch=p, edges=e, closed=cl, force=force)  # noqa: E731
+    pool = lambda op, w=2: dict(op, workers=w)  # noqa: E731
+    child = lambda op: dict(op, proc="child")  # noqa: E731
+    peek_ = lambda cat: dict(op="peek", cat=cat)  # noqa: E731
+    reopen = lambda cat: dict(op="reopen", cat=cat)  # noqa: E731
     return [
+        # ---- histories whose steps are executed by DIFFERENT processes (same bin count unless noted)
+        # sequential A, pooled B (workers rebuild), sequential B (no rebuild in the measuring process)
+        [auto(c(0, "right")), pool(auto(c(2, "right"))), auto(c(2, "right"))],
+        # the pooled measurement itself is the final one (its counting workers are forked from the measuring process)
+        [auto(c(0, "right")), pool(auto(c(2, "right")), 3)],
+        # the rebuild for B is done by catalog-wide builds in a pool / in a child process, Catalog objects kept alive
+        [auto(c(2, "left")), pool(build("X", 0, "left")), pool(build("R", 0, "left"), 3), auto(c(0, "left"))],
+        [auto(c(0, "right"), "Y"), child(build("Y", 3, "right")), child(build("R", 3, "right")), auto(c(3, "right"), "Y")],
+        # ... by a whole measurement in a child process; afterwards the catalogs are reopened, not kept alive
+        [auto(c(0, "left")), child(auto(c(0, "right"))), reopen("X"), reopen("R"), auto(c(0, "right"))],
+        # ... by single-patch builds in a child process (every patch / one patch only)
+        [auto(c(0, "right")), child(bpatch("X", 0, 2)), child(bpatch("X", 1, 2)), child(bpatch("X", -1, 2)),
+         child(build("R", 2, "right")), auto(c(2, "right"))],
+        [auto(c(0, "right")), child(bpatch("X", 0, 2)), auto(c(2, "right"))],
+        # roles swap between processes: binned <-> unbinned trees of the same patch
+        [cross(c(0, "left"), "X", "Y"), pool(cross(c(0, "left"), "Y", "X")), cross(c(0, "left"), "Y", "X")],
+        [cross(c(1, "right"), "X", "Y", "unk_rand"), child(cross(c(1, "right"), "Y", "X", "unk_rand")),
+         pool(cross(c(1, "right"), "Y", "X", "unk_rand"))],
+        # other bin count between processes
+        [auto(c(1, "left")), pool(auto(c(0, "left"))), auto(c(0, "left"))],
+        # peeks of the measuring process around rebuilds done elsewhere (forced / unforced), then the measurement
+        [build("X", 0, "right"), peek_("X"), child(build("X", 2, "right", True)), peek_("X"), build("R", 2, "right"),
+         auto(c(2, "right"))],
+        [auto(c(0, "left")), peek_("R"), pool(auto(c(0, "right"))), peek_("R"), peek_("X"), auto(c(0, "right"))],
+        [peek_("X"), pool(build("X", None)), peek_("X"), child(build("X", 1, "left")), peek_("X"), pool(auto(c(1, "left")))],
+        # pooled first, sequential afterwards; everything pooled; everything in children
+        [pool(auto(c(0, "right"))), auto(c(2, "right")), pool(auto(c(0, "right"))), auto(c(0, "right"))],
+        [pool(auto(c(0, "right"))), pool(auto(c(2, "right")), 3), pool(auto(c(2, "right")))],
+        [child(auto(c(3, "left"))), child(auto(c(0, "left"))), child(auto(c(0, "left")))],
+        # a request that raises in a pool / child leaves cache and measuring process alone
+        [auto(c(2, "left"), "Y"), pool(dict(op="build_invalid", cat="Y", edges=1, closed="left")),
+         child(dict(op="build_invalid", cat="R", edges=0, closed="right")), child(auto(c(0, "left"), "Y")), auto(c(0, "left"), "Y")],
+        # ---- single process
         # patches of one catalog hold trees for DIFFERENT binnings (same bin count):
         # all patches hold A, only patch 0 is rebuilt for B, then measure with B
         [auto(c(0, "right")), bpatch("X", 0, 2, "right"), auto(c(2, "right"))],
@@ -510,7 +793,14 @@ def specs(ctx):
 
 # ---------------------------------------------------------------- entry points
 def run_specs(ctx, all_specs):
-    impl.set_threads(1)
+    impl.set_threads(MAX_POOL)   # every yaw call below passes an explicit max_workers (1 unless the step asks for a pool)
+    try:
+        run_specs_(ctx, all_specs)
+    finally:
+        impl.set_threads(1)
+
+
+def run_specs_(ctx, all_specs):
     terms, owners = [], []
     done = {}
     for idx, spec in enumerate(all_specs):
@@ -519,8 +809,12 @@ def run_specs(ctx, all_specs):
             done[idx] = spec
         except Exception as e:
             ctx.count(key=(spec["dseed"], repr(spec["ops"])), kind="raised")
-            ctx.fail("c07-raises:%s" % type(e).__name__,
-                     "a valid build / measurement history raised %s: %s" % (type(e).__name__, e),
+            where = "-after-steps-in-other-processes" if any(elsewhere(op) for op in spec["ops"]) and not raises_too(
+                ctx, idx, spec) else ""
+            ctx.fail("c07-raises%s:%s" % (where, type(e).__name__),
+                     "a valid build / measurement history raised %s: %s%s" % (
+                         type(e).__name__, e, " (the same steps all executed by the measuring process itself do not raise)"
+                         if where else ""),
                      dict(spec, traceback=traceback.format_exc()[-1500:]), case=idx)
     codes = ctx.shards("Cases_C07", HEADER, terms, shard=200)
     bad = {}
@@ -535,6 +829,11 @@ def run_specs(ctx, all_specs):
             allc |= c
         if allc & 4:
             ctx.obligation("harness:c07-final-request(case %d)" % idx, False, repr(lst))
+        if allc & 8:
+            ctx.fail("c07-trees-accessor-differs-from-trees-file",
+                     "BinnedTrees(patch).trees read in the measuring process (a peek step) is not the content of trees.pkl "
+                     "the history left on disk (is-a-tuple / records per tree differ), (catalog, code): %s; steps and "
+                     "executors: %s" % (lst[:4], [(op["op"], executor(op)) for op in spec["ops"]]), dict(spec), case=idx)
         if allc & 2:
             ctx.fail("c07-trees-not-those-of-requested-binning",
                      "after the final build the cached trees / binning file of a patch are not those of the requested "
@@ -544,6 +843,18 @@ def run_specs(ctx, all_specs):
             if searched < 12:     # search budget
                 searched += 1
                 search_prefixes(ctx, idx, spec)
+
+
+def raises_too(ctx, idx, spec):
+    """does the history also raise when every step is executed by the measuring process itself"""
+    try:
+        data = gen_data(spec["dseed"])
+        _, _, _, paths = run_history(ctx, "r%d" % idx, data, [strip_exec(op) for op in spec["ops"]], record=False)
+        for p in paths.values():
+            shutil.rmtree(p, ignore_errors=True)
+        return False
+    except Exception:   # noqa: BLE001
+        return True
 
 
 def run(ctx):
